@@ -49,7 +49,7 @@ structure TilesYear (E : Eph) (y : Int) : Prop where
 /-- LIFTED FACT: every lunar year 0..9998 of the extracted data tiles, except the five D4 years. -/
 theorem realEph_tiles (y : Nat) (hy : y ≤ 9998) (hb : badYear y = false) : TilesYear realEph y := by
   have hlen := yearRecs_length
-  have hp := adjRec_spec 512 yearPair Gen.monthsChunks years_tile_fact y (by
+  have hp := adjRec_spec 1024 yearPair Gen.monthsChunks years_tile_fact y (by
     show y + 1 < yearRecs.length
     omega)
   have ea : yearRecs.getD y 0 = yearRecs[y]'(by omega) := by
@@ -104,7 +104,7 @@ theorem realEph_leap_le (y : Int) : realEph.leap y ≤ 12 := by
   · split
     · rename_i h1 h2
       by_cases hlt : y.toNat < yearRecs.length
-      · have := allRec_spec 512 _ Gen.monthsChunks years_leap_fact y.toNat hlt
+      · have := allRec_spec 1024 _ Gen.monthsChunks years_leap_fact y.toNat hlt
         simp only [yearLeapOK, Bool.and_eq_true, decide_eq_true_eq] at this
         have e : yearRecs.getD y.toNat 0 = yearRecs[y.toNat]'hlt := by
           simp [List.getD, List.getElem?_eq_getElem hlt]
